@@ -543,6 +543,7 @@ private:
         // If other threads are trying to set pointers in the short segment, wait for them to finish their
         // assignments before we copy the short segment to the long segment. Note: grow_to_at_least depends on it
         for (segment_index_type i = 0; this->segment_base(i) < start_index; ++i) {
+            __TBB_VERIF_POINT(vp_cv_wait_segment, this, 0);
             spin_wait_while_eq(embedded_table[i], segment_type(nullptr));
         }
 
@@ -572,6 +573,7 @@ private:
         if (seg_index < first_block) {
             // If 0 segment is already allocated, then it remains to wait until the segments are filled to requested
             if (table[0].load(std::memory_order_acquire) != nullptr) {
+                __TBB_VERIF_POINT(vp_cv_wait_segment, this, 1);
                 spin_wait_while_eq(table[seg_index], segment_type(nullptr));
                 return nullptr;
             }
@@ -606,6 +608,7 @@ private:
                 // Deallocate the memory
                 segment_element_allocator_traits::deallocate(segment_allocator, new_segment, first_block_size);
                 // 0 segment is already allocated, then it remains to wait until the segments are filled to requested
+                __TBB_VERIF_POINT(vp_cv_wait_segment, this, 2);
                 spin_wait_while_eq(table[seg_index], segment_type(nullptr));
             }
         } else {
@@ -622,6 +625,7 @@ private:
                     table[seg_index].store(new_segment, std::memory_order_release);
                 });
             } else {
+                __TBB_VERIF_POINT(vp_cv_wait_segment, this, 3);
                 spin_wait_while_eq(table[seg_index], segment_type(nullptr));
             }
         }
@@ -773,6 +777,7 @@ private:
     template <typename... Args>
     iterator internal_emplace_back( Args&&... args ) {
         size_type old_size = this->my_size++;
+        __TBB_VERIF_POINT(vp_cv_range_claimed, this, 1);
         this->assign_first_block_if_necessary(default_first_block_size);
         auto element_address = &base_type::template internal_subscript</*allow_out_of_range_access=*/true>(old_size);
 
@@ -833,6 +838,7 @@ private:
     template <typename... Args>
     iterator internal_grow( size_type start_idx, size_type end_idx, const Args&... args ) {
         size_type seg_index = this->segment_index_of(end_idx - 1);
+        __TBB_VERIF_POINT(vp_cv_range_claimed, this, end_idx - start_idx);
         this->assign_first_block_if_necessary(seg_index + 1);
         segment_table_type table = this->get_table();
         this->extend_table_if_necessary(table, start_idx, end_idx);
